@@ -107,7 +107,7 @@ def dims_of(part):
 
 
 def _route_body(idx):
-    reply, proxy_ok, origin_ok, host_i, port, with_ph, caller_host, nreq, close_between = decode_point(idx, dims_of(P))
+    reply, proxy_ok, origin_ok, host_i, port, with_ph, caller_host, nreq, close_between = decode_point(idx, dims_of)
     return N._untraced(_route)(P.proxy_https, P.dest_https, P.forwarding, reply, proxy_ok, origin_ok, host_i, port, with_ph,
                                caller_host, nreq, close_between)
 
@@ -409,6 +409,9 @@ def c09_table(pk: int, fwd_kind: int, dk: int) -> bool:
     post: _
     """
     return run(_table_body, pk, fwd_kind, dk)
+
+
+DIMS = {"c09_route": dims_of}
 
 
 def JOBS(tier):
